@@ -34,7 +34,17 @@ def apply_op(g, o: Dict[str, Any], variant: int = 0):
     if op == "reshape":
         return g.reshape(o["n"], **ac_kw(o))
     if op == "resample":
-        return g.resample(fl(F(o["h"])), min_size=o["min"])
+        h_ = fl(F(o["h"]))
+        if variant % 4 == 1:
+            return g.resample(*h_, min_size=o["min"])
+        if len(set(h_)) == 1 and variant % 4 == 2:
+            # isotropic: as one number, or by name when it is the grid's smallest / largest spacing
+            if abs(float(g.spacing().min()) - h_[0]) < 1e-9:
+                return g.resample("min", min_size=o["min"])
+            if abs(float(g.spacing().max()) - h_[0]) < 1e-9:
+                return g.resample("max", min_size=o["min"])
+            return g.resample(h_[0], min_size=o["min"])
+        return g.resample(h_, min_size=o["min"])
     if op == "downsample":
         return g.downsample(o["levels"], dims=o["dims"] or None, min_size=o["min"], **ac_kw(o))
     if op == "upsample":
@@ -42,10 +52,14 @@ def apply_op(g, o: Dict[str, Any], variant: int = 0):
     if op in ("crop", "pad"):
         f = getattr(g, op)
         if o["lo"] == o["hi"]:
-            if variant % 3 == 1:
+            if variant % 5 == 1:
                 return f(margin=o["lo"])
-            if variant % 3 == 2:
+            if variant % 5 == 2:
                 return f(*o["lo"])
+            if variant % 5 == 3:
+                return f(tuple(o["lo"]))  # one sequence argument
+            if variant % 5 == 4 and len(set(o["lo"])) == 1:
+                return f(margin=int(o["lo"][0]))  # one number for every border (positional ints are per-axis margins: f(1) pads the x axis only)
         return f(num=interleave(o["lo"], o["hi"]))
     if op == "center_crop":
         return g.center_crop(o["n"]) if variant % 2 == 0 else g.center_crop(*o["n"])
@@ -152,6 +166,23 @@ def check_chain(ctx: Ctx, c: Dict[str, Any], variant: int = 0) -> None:
                           f"Grid.cube().grid({name}) raised {type(ex).__name__} ({str(ex)[:120]}) after {[h['op'] for h in hist[:-1]]}", c)
         else:
             compare_grid(ctx, c, gc, c["g"], dict(op="Cube.grid", form=name, ac_arg=last["ac"], **sig0), f"Grid.cube().grid({name}) in place of {last['op']} after {[h['op'] for h in hist[:-1]]}")
+    # resample("min" | "max") = resampling to the grid's own smallest / largest spacing; pad/crop by nothing return the grid itself
+    if len(hist) == 1:
+        for word, val in (("min", float(base.spacing().min())), ("max", float(base.spacing().max()))):
+            try:
+                gw, gn = base.resample(word), base.resample(val)
+                if list(gw.size()) != list(gn.size()) or max_err(gw.spacing(), gn.spacing()) > 1e-6 or max_err(gw.center(), gn.center()) > 1e-4 or max_err(gw.spacing(), [val] * base.ndim) > 1e-6 * max(1.0, val):
+                    ctx.violation(dict(op="resample", word=word, **sig0), f"resample('{word}') gives {gw!r}, resample({val}) gives {gn!r}", c)
+            except Exception as ex:
+                ctx.violation(dict(op="resample", word=word, exc=type(ex).__name__, **sig0), f"resample('{word}') raised {type(ex).__name__}: {str(ex)[:100]}", c)
+        for nm in ("pad", "crop"):
+            for form, call in (("0", lambda f_: f_(*([0] * base.ndim))), ("margin=0", lambda f_: f_(margin=0)), ("num=zeros", lambda f_: f_(num=(0,) * (2 * base.ndim)))):
+                try:
+                    g0 = call(getattr(base, nm))
+                    if g0 != base or list(g0.size()) != list(base.size()):
+                        ctx.violation(dict(op=nm, form=form, what="zero", **sig0), f"{nm}({form}) changes the grid", c)
+                except Exception as ex:
+                    ctx.violation(dict(op=nm, form=form, exc=type(ex).__name__, **sig0), f"{nm}({form}) raised {type(ex).__name__}: {str(ex)[:100]}", c)
     # same domain for the resize family
     if last["op"] in ("resize", "reshape", "downsample", "upsample") and len(hist) == 1:
         acq = base.align_corners() if last["ac"] == -1 else bool(last["ac"])
